@@ -15,3 +15,10 @@ func VerifC09Subs(bal *BalanceGslb) (names []string, weights []int, brrs []*bal_
 	}
 	return
 }
+
+// VerifC09Total returns bal.totalWeight (C09: the harness sweeps every hash residue modulo it).
+func VerifC09Total(bal *BalanceGslb) int {
+	bal.lock.Lock()
+	defer bal.lock.Unlock()
+	return bal.totalWeight
+}
